@@ -96,6 +96,10 @@ func (x *Exec) heapTyping(key, arr string) {
 		// hold counters are never negative
 		x.u.fact(fmt.Sprintf("(forall ((r Int)) (! (>= (select %s r) 0) :pattern ((select %s r))))", arr, arr))
 	}
+	if strings.HasPrefix(key, "M_") && strings.HasSuffix(key, ".dom") {
+		// the nil map has no keys (writes to it panic, so this holds in every incarnation)
+		x.u.fact(fmt.Sprintf("(forall ((k %s)) (! (not (select (select %s 0) k)) :pattern ((select (select %s 0) k))))", mapDomKeySort(x.u.heapKeys[key]), arr, arr))
+	}
 	if key == "db.store.val" {
 		// every stored value is a byte string
 		srt := x.u.heapKeys[key]
@@ -311,4 +315,10 @@ func (x *Exec) alloc(st *State, base string) string {
 	x.u.fact("(= " + nn + " (+ " + st.next + " 1))")
 	st.next = nn
 	return r
+}
+
+// mapDomKeySort extracts K from the sort "(Array Int (Array K Bool))" of a map's dom array.
+func mapDomKeySort(srt string) string {
+	s := strings.TrimPrefix(srt, "(Array Int (Array ")
+	return strings.TrimSuffix(s, " Bool))")
 }
